@@ -108,9 +108,27 @@ def for_shape(loop):
     return sh
 
 
+def same_count(loop, text, want):
+    """is the bound text `want`, or a local that was set once to `want` (possibly through a cast: size_t n = (size_t) kf->group_count)?"""
+    if text == want:
+        return True
+    fn = loop.fn
+    defs = []
+    for n in fn.walk():
+        if n.k == "DeclStmt":
+            for d in n.j.get("decls", []):
+                if d["name"] == text and d.get("init", -1) >= 0:
+                    defs.append(fn.nodes[d["init"]])
+        elif n.k == "BinaryOperator" and n.j.get("op") == "=" and render(n.children[0]) == text:
+            defs.append(n.children[1])
+        elif (n.k == "UnaryOperator" and n.j.get("op") in ("++", "--") or n.k == "CompoundAssignOperator") and render(n.children[0]) == text:
+            return False
+    return len(defs) == 1 and render(defs[0].strip()) == want
+
+
 def covers_range(sh, lo, hi_render):
-    """ascending [lo, hi): start == lo, cmp '<', bound == hi"""
-    return sh.ok and sh.step > 0 and sh.start_node.const_value() == lo and sh.cmp == "<" and sh.bound == hi_render
+    """ascending [lo, hi): start == lo, cmp '<', bound == hi (or a local copy of hi)"""
+    return sh.ok and sh.step > 0 and sh.start_node.const_value() == lo and sh.cmp == "<" and same_count(sh.node, sh.bound, hi_render)
 
 
 def index_shape(loop):
@@ -191,7 +209,7 @@ class Traversal:
         self.loop, self.base, self.lo, self.hi, self.step, self.elems, self.var, self.ptr = loop, base, lo, hi, step, elems, var, ptr
 
     def covers(self, base, hi, lo="0"):
-        return self.base == base and self.hi == hi and self.lo == lo and self.step > 0
+        return self.base == base and same_count(self.loop, self.hi, hi) and self.lo == lo and self.step > 0
 
     def describe(self):
         return "%s %s[%s .. %s) by %s `%s`" % ("ascending" if self.step > 0 else "descending", self.base, self.lo, self.hi,
